@@ -403,12 +403,79 @@ def c17_jobs(tier, seed):
     t = tier == 'thorough'
     W = ('alloc', 'popen')
     js = [Job('h_parse', 'asan', wraps=W, args=['--cases-dir', '{bdir}/conf', '--maxlen', '7' if t else '5', '--mutations', '400000' if t else '10000'], env={'LSAN_OPTIONS': 'detect_leaks=0', 'ASAN_OPTIONS_EXTRA': 'detect_leaks=0'})]
+    if t:
+        js.append(Job('h_parse', 'vg', wraps=W, tag='h_parse-vg', timeout=7200,
+                      runner=['valgrind', '-q', '--error-exitcode=0', '--track-origins=no', '--leak-check=no', '--log-file={out}.vg.%p'],
+                      args=['--cases-dir', '{bdir}/conf', '--maxlen', '3', '--mutations', '6000']))
     return js
+
+
+FUZZ_NAMES = ['qurl_decode', 'qbase64_decode', 'qhex_decode', 'qparse_queries', 'qconfig_parse_str', 'qaconf_parse']
+
+
+def c17_post(res, tier, seed, bdir, rdir):
+    """thorough tier: coverage-guided fuzzing of every decoder/parser with clang libFuzzer + ASan/UBSan (-runs fixed)"""
+    if tier != 'thorough':
+        return
+    import subprocess, os, glob, shutil, re
+    from concurrent.futures import ThreadPoolExecutor
+    from vf import build_lib, CONFIGS, REPO, INCS, VERIF, Inconclusive
+    lib = build_lib(bdir, 'fuzz')
+    hdir = os.path.join(VERIF, 'harness')
+    incs = sum((['-I', os.path.join(REPO, i)] for i in INCS), []) + ['-I', hdir]
+    runs = int(os.environ.get('VF_FUZZ_RUNS', '1500000'))
+    seeds_dir = os.path.join(bdir, 'conf')
+
+    def one(n):
+        exe = os.path.join(bdir, 'fuzz_%d' % n)
+        r = subprocess.run(['clang', '-std=gnu11', '-O1', '-g', '-DFUZZ_TARGET=%d' % n, '-fsanitize=fuzzer,address,undefined', '-fno-sanitize=nonnull-attribute,returns-nonnull-attribute',
+                            '-fno-sanitize-recover=all', '-fno-omit-frame-pointer'] + incs + [os.path.join(hdir, 'fuzz_target.c'), os.path.join(hdir, 'wrap_popen.c'), '-o', exe] + lib +
+                           ['-Wl,--wrap=popen', '-lpthread', '-lm'], stdout=subprocess.PIPE, stderr=subprocess.STDOUT, text=True)
+        if r.returncode != 0:
+            return n, None, 'build failed: ' + r.stdout[-1500:]
+        corpus = os.path.join(bdir, 'corpus_%d' % n); os.makedirs(corpus, exist_ok=True)
+        pat = {4: 'i*.conf', 5: 'a*.conf'}.get(n)
+        if pat:
+            for f in sorted(glob.glob(os.path.join(seeds_dir, pat)))[:400]:
+                shutil.copy(f, corpus)
+        else:
+            for i, sd in enumerate([b'%41%2', b'a+b%', b'QUJD', b'QQ==', b'41424', b'a=1&b=%20&c', b'%', b'=&=']):
+                open(os.path.join(corpus, 's%d' % i), 'wb').write(sd)
+        art = os.path.join(bdir, 'fuzz_art_%d_' % n)
+        env = dict(os.environ, ASAN_OPTIONS='detect_leaks=0:allocator_may_return_null=1', UBSAN_OPTIONS='print_stacktrace=1')
+        p = subprocess.run([exe, '-runs=%d' % runs, '-seed=%d' % (seed * 31 + n + 1), '-timeout=10', '-max_len=2048', '-rss_limit_mb=3000', '-print_final_stats=1',
+                            '-artifact_prefix=' + art, corpus], stdout=subprocess.PIPE, stderr=subprocess.STDOUT, text=True, env=env, timeout=6000)
+        return n, p, None
+    with ThreadPoolExecutor(6) as ex:
+        for n, p, err in ex.map(one, range(6)):
+            name = FUZZ_NAMES[n]
+            if err:
+                res.inconclusive.append('fuzz target %s: %s' % (name, err)); continue
+            out = p.stdout
+            m = re.search(r'stat::number_of_executed_units:\s*(\d+)', out)
+            execs = int(m.group(1)) if m else 0
+            res.counters['fuzz_executions:' + name] = execs
+            res.counters['evaluations'] = res.counters.get('evaluations', 0) + execs
+            mc = re.findall(r'cov: (\d+)', out)
+            if mc:
+                res.maxes['fuzz_edge_coverage:' + name] = int(mc[-1])
+            if p.returncode != 0:
+                cls = 'crash'
+                mm = re.search(r'ERROR: AddressSanitizer: ([\w-]+)', out) or re.search(r'runtime error: ([^\n]{0,60})', out) or re.search(r'ERROR: libFuzzer: ([\w -]+)', out)
+                if mm:
+                    cls = re.sub(r'[^\w]+', '-', mm.group(1).strip())[:40]
+                arts = glob.glob(os.path.join(bdir, 'fuzz_art_%d_*' % n))
+                rp = os.path.join(rdir, 'C17-fuzz-%s-%s.bin' % (name, cls))
+                if arts:
+                    shutil.copy(arts[0], rp)
+                else:
+                    open(rp, 'w').write(out[-4000:])
+                res.viols.append(('C17', 'fuzz:%s:%s' % (name, cls), rp, 'libFuzzer target %s stopped: %s' % (name, out[-600:].replace('\n', ' | '))))
 
 
 CHECKS['C17'] = dict(
     title='decoders and parsers memory-safe and terminating on arbitrary input', level='exploration',
-    pre=c17_pre, jobs=c17_jobs,
+    pre=c17_pre, jobs=c17_jobs, post=c17_post,
     rule='evaluation = one call of qurl_decode / qbase64_decode / qhex_decode / qparse_queries / qconfig_parse_str / qconfig_parse_file / qaconf parse on an input in an exactly-sized heap buffer (file parsers: memfd or scratch file) '
          'under ASan+UBSan with a 2 s CPU budget, allocation-count budget (20000; INI parser 4000+|input|/4) and live-bytes budget 64*|input|+1 MiB; in-place decoders additionally: returned length <= input length and NUL at that length. '
          'Inputs: (a) every string up to length L (quick 5, thorough 7; hex L+1, INI file form L-1) over the significant bytes of each format; (b) generated INI / Apache-style documents (refs/gen_conf.py) and random decoder inputs, mutated: truncate, duplicate, delete, bit flips, '
